@@ -421,6 +421,8 @@ def main(argv):
     if nan_seen:
         ck.notes.append("%d oracle cases produced NaN probabilities (AssertionError): unphysical parameter draw, not counted." % nan_seen)
 
+    ck.extra["outside_domain_observations"] = outside_probes()
+
     # ---------------- evaluate the model inside Coq
     results = ck.coq_eval_many([(n, b) for n, b, _, _ in shards])
     fam_cases = {"layout": lay_cases, "malformed": mspecs, "measurament": mcases, "run_dyadic": dcases}
@@ -464,6 +466,22 @@ def main(argv):
                       % (fam, json.dumps(info.get("options", info) if isinstance(info, dict) else info)[:300], extra),
                       {"correspondence": "C14 " + fam, "spec": info, "mismatches": len(mism)}, False)
     return ck.finish()
+
+
+def outside_probes():
+    """inputs outside the property's list whose behaviour is worth recording (never a violation)"""
+    out = {}
+    base = {"circ_kind": "qc", "layout": ["list", [0]], "shots": ["int", 1], "cls": "BinaryCircuit", "gates": "noisefree"}
+    s1 = dict(base, circ={"nphys": 2, "nclbits": 1, "instrs": [["x", [0], [], []], ["barrier", [1], [], []], ["measure", [0], [0], []]]},
+              psi0=["basis", 2], params=["ok", "mild", 2, 0], nqubit=["int", 1])
+    r = run_spec(s1)
+    out["x(0); barrier(1); measure(0) with nqubit=1 (qubit 1 counts as used because of the barrier)"] = \
+        {k: float(v) for k, v in r[1].items()} if r[0] == "ok" else list(r[1:3])
+    s2 = dict(base, circ={"nphys": 4, "nclbits": 2, "instrs": [["x", [0], [], []], ["sx", [3], [], []], ["measure", [0], [0], []], ["measure", [3], [1], []]]},
+              psi0=["basis", 4], params=["ok", "mild", 2, 0], nqubit=["int", 2])
+    r = run_spec(s2)
+    out["BinaryCircuit on labels {0,3}, nqubit=2, device tables of length 2"] = "ok" if r[0] == "ok" else list(r[1:3])
+    return out
 
 
 # ------------------------------------------------------------------------------------------------ measurament family
